@@ -13,7 +13,7 @@ HARNESS_BIN = "c16"
 RELEASE_ALWAYS = True     # usize arithmetic of LimitedReader: debug (overflow checks) and release
 RULE = ("every `write` of the crate against an instrumented io::Write that accepts k bytes (k = 0..len+2, enumerated) in "
         "chunks of 1/3/all and then fails with Err or Ok(0); Ethernet2/LinuxSll write_to_slice and the builder's write_to_slice "
-        "for every slice length 0..len+2 with 16 canary bytes behind the slice; every `read`/`read_limited` against an "
+        "for every slice length 0..len+2 with 16 canary bytes in front of and behind the slice; every `read`/`read_limited` against an "
         "instrumented io::Read that ends (EOF or Err) at every k = 0..len, LimitedReader budgets 0..len+1 and explicit "
         "read_exact/start_layer sequences; non-trivial = multi-part writer/builder/reader case with the fault strictly inside "
         "the encoding (0 < k < len) or a slice shorter than required; distinct = distinct case lines")
@@ -21,7 +21,8 @@ ASSUMPTIONS = [
     "real OS error kinds are not modelled: only ErrorKind::Other, WriteZero (Ok(0) from write) and UnexpectedEof (Ok(0) from read), produced by the instrumented devices; Interrupted is never returned",
     "devices are fail-stop (a reader/writer that failed does not recover); a LimitedReader re-used after an Io error of a recovering reader is outside the statement",
     "byte layout of the parts is a parameter of the model (to_bytes() of the real header, obtained in a reference pass); C16 is about sequencing/error propagation",
-    "bytes outside the output slice do not exist in the model; on the real crate 16 canary bytes behind every slice are checked",
+    "writes outside the output slice: the model (C16_slice_frame) places the returned slice contents into a flat memory and proves the rest unchanged, which rests on the transliterated bounds checks of safe slice indexing; on the real crate 16 canary bytes in front of and behind every slice are checked",
+    "error propagation: a writer/reader that drops an I/O error is expressible (IoFault/Propagate.v) and refuted; that each crate function is the propagating program given there is checked by this run only",
 ]
 PROJECTION = "result class (ok / io:kind / content:tag / len fields / space), bytes received or buffer contents, bytes pulled, LimitedReader state"
 
@@ -526,6 +527,7 @@ def compare(ctx, cases, impl, model_lines):
     seen = set()
     nontriv = 0
     groups = {}      # (profile, entry, spec, chunk, zero) -> list of (k, got bytes, index)
+    rgroups = {}     # readers: (profile, entry, data, chunk/err or budget/offset) -> list of (k, answer, index)
 
     def bump(k):
         hist[k] = hist.get(k, 0) + 1
@@ -587,7 +589,7 @@ def compare(ctx, cases, impl, model_lines):
             elif tag in ("ws", "wsb"):
                 bump(tag + ".result." + base.split()[0].split(":")[0])
                 if ex.get("canary") != "ok":
-                    orc.append((i, "%s: bytes behind the output slice were modified" % prof, None))
+                    orc.append((i, "%s: bytes outside the output slice (canaries in front of / behind it) were modified" % prof, None))
                 if s is not None and s != "-":
                     sb = s.split(" buf=")
                     bb = base.split(" buf=")
@@ -612,6 +614,8 @@ def compare(ctx, cases, impl, model_lines):
                 bump("r.result." + base.split()[0].split(":")[0])
                 kv = _kv(base)
                 k = int(a[2])
+                rgroups.setdefault((prof, a[1], a[5]) + (("L", a[6], a[7]) if len(a) > 6 else ("P", a[3], a[4])), []
+                                   ).append((k, base, i))
                 if base.startswith("len "):
                     f = base.split()
                     if int(f[1]) <= int(f[2]):
@@ -643,6 +647,21 @@ def compare(ctx, cases, impl, model_lines):
         for (k, got, i) in lst:
             if full[:len(got)] != got:
                 orc.append((i, "%s: bytes received with a fault at %d are not a prefix of what a fault-free write delivers" % (key[0], k), None))
+    # C16_read_fault as a relation between implementation answers: take the answer for the longest
+    # source of a group as reference, K = bytes it pulled.  A source ending at k < K must give the I/O
+    # error having pulled exactly k bytes; a source ending at k >= K must give the reference answer.
+    for key, lst in rgroups.items():
+        kmax, ref, _ = max(lst, key=lambda t: t[0])
+        K = int(_kv(ref).get("pulled", "0"))
+        for (k, base, i) in lst:
+            pulled = int(_kv(base).get("pulled", "0"))
+            if k < K:
+                if not base.startswith("io:") or pulled != k:
+                    orc.append((i, "%s: the fault-free read consumes %d bytes; the reader ending at %d answered '%s' (must be "
+                                   "the I/O error after exactly %d bytes)" % (key[0], K, k, base[:100], k), None))
+            elif k < kmax and base != ref:
+                orc.append((i, "%s: the read consumes %d bytes, yet ending the reader at %d >= %d changes the answer: '%s' vs '%s'"
+                            % (key[0], K, k, K, base[:100], ref[:100]), None))
     mid = len(cases) // 2
     return {"corr_mismatch": corr, "oracle_fail": orc, "hist": dict(sorted(hist.items())), "nontrivial": nontriv,
             "samples": [cases[0][:300], cases[mid][:300], cases[-1][:300]] if cases else [],
